@@ -157,7 +157,7 @@ pub fn prev_step_then_fail_then_step(pat: Pat, psk_mask: u16, k: usize) {
     rm_advance::<P>(&mut pair, k - 1);
     // X = the party that writes message k (so it READS message k-1)
     let (mut rm_x, mut rm_peer) = if k % 2 == 0 { (pair.i, pair.r) } else { (pair.r, pair.i) };
-    let mut hs = snow_from_rm_a::<8, 4, 4>(&rm_x, NAME, false);
+    let mut hs = crate::glue::snow_from_rm_a::<8, 4, 4>(&rm_x, NAME, false);
     let e1: [u8; 8] = kani::any();
     let p1: [u8; 1] = kani::any();
     let mut m = [0u8; MSGBUF];
